@@ -24,6 +24,11 @@ pub mod sl {
         proof { assert(a@.subrange(0, p@.len() as int) =~= p@); }
         Some(slice_from(a, p.len()))
     }
+    /// `<[u8]>::eq_ignore_ascii_case` (ASSUMED std meaning; not used by the pinned code - a partial contract so that a change
+    /// that starts using it is judged against the property instead of being unanalysable).
+    pub open spec fn lower_b(c: u8) -> u8 { if 0x41u8 <= c && c <= 0x5au8 { (c + 0x20u8) as u8 } else { c } }
+    pub assume_specification [<[u8]>::eq_ignore_ascii_case] (a: &[u8], b: &[u8]) -> (r: bool)
+        ensures r == (a@.len() == b@.len() && forall|i: int| 0 <= i < a@.len() ==> lower_b(#[trigger] a@[i]) == lower_b(b@[i]));
     /// `&s[k..]`
     pub fn slice_from<'a>(s: &'a [u8], k: usize) -> (r: &'a [u8])
         requires k <= s@.len(),
